@@ -113,6 +113,26 @@ class Block:
     def cast_to(self, t):
         return self
 
+    # the header in front of the children (MetaNode {cap, map}), for accessors interpreted from their bodies
+    def get_member(self, name):
+        if self.freed:
+            raise UndefinedBehaviour('the header of a released children block is read')
+        if name == 'map':
+            if self.map is UNINIT:
+                raise UndefinedBehaviour('the map word of a children block is read before it was initialised')
+            return self.map if self.map is not None else 0
+        if name == 'cap':
+            return self.cap
+        raise Unsupported('children-block header field %s' % name)
+
+    def set_member(self, name, v):
+        if self.freed:
+            raise UndefinedBehaviour('the header of a released children block is written')
+        if name == 'map':
+            self.map = None if (isinstance(v, int) and v == 0) else v
+            return
+        raise Unsupported('store to children-block header field %s' % name)
+
 
 class CharPtr:
     """pointer to character data: compares by ADDRESS (two views of one buffer share it), carries the text from there on"""
@@ -384,7 +404,7 @@ class Machine:
                 m.entries = [x for x in m.entries if x[0] != k]
                 return n0 - len(m.entries)
             if name in ('emplace', 'insert'):
-                k, idx = args[0]
+                k, idx = args[0] if len(args) == 1 else (args[0], args[1])      # emplace(pair) / emplace(key, index)
                 k = skey(k)
                 m.entries.insert(m.upper(k), [k, idx])
                 return 0
